@@ -26,13 +26,16 @@ try:
         ok_suite = rc == 0 and "passed=155" in o
         # the file keeps the name the sub-agent gave it (some demos compare the caller's file name with their own)
         idx = name.rsplit("-", 1)[-1]
+        os.makedirs(os.path.join(W, demo_dir), exist_ok=True)  # some demos live in a directory of their own
         dst = os.path.join(W, demo_dir, f"demo{idx}_test.go")
         shutil.copy(d + "/demo_test.go.txt", dst)
-        names = re.findall(r"^func (Test\w+)\(", open(dst).read(), re.M)
+        src = open(dst).read()
+        names = re.findall(r"^func (Test\w+)\(", src, re.M)
         pat = "^(" + "|".join(names) + ")$"
-        rc_with, _ = run(f"go test -vet=off -count=1 -run '{pat}' ./{demo_dir}/", W)
+        race = "-race " if re.search(r"^//go:build race", src, re.M) else ""  # a demo that shows a data race
+        rc_with, _ = run(f"go test {race}-vet=off -count=1 -run '{pat}' ./{demo_dir}/", W)
         run(f"git apply -R {d}/patch.diff", W)
-        rc_wo, _ = run(f"go test -vet=off -count=1 -run '{pat}' ./{demo_dir}/", W)
+        rc_wo, _ = run(f"go test {race}-vet=off -count=1 -run '{pat}' ./{demo_dir}/", W)
         os.remove(dst)
         run(f"git apply {d}/patch.diff", W)
         meta["confirmed"] = {"suite_passes_with_patch": ok_suite, "demo_fails_with_patch": rc_with != 0, "demo_passes_without_patch": rc_wo == 0,
